@@ -592,8 +592,14 @@ def canon_model_tree(t):
     return out
 
 
+def as_read(text):
+    """a schema *file* as the front end receives it: read in text mode, so CR LF and lone CR arrive as LF"""
+    return text.replace("\r\n", "\n").replace("\r", "\n")
+
+
 def model_cases(files_list):
-    return [{"op": "parse", "files": [[rel.split("/"), text] for rel, text in fl["files"].items()],
+    return [{"op": "parse", "files": [[rel.split("/"), text if fl.get("from_string") and rel == fl["root"] else as_read(text)]
+                                      for rel, text in fl["files"].items()],
              "root": fl["root"].split("/")} for fl in files_list]
 
 
@@ -953,6 +959,17 @@ def run_c20(rep, rng, tier):
             else:
                 del files[victim]
         single = {"main.fcp": render(rng, desc_toks(rng, d), "canon")}
+        eol = rng.choice([None] * 7 + ["\r\n", "\r\n", "\r"])
+        if eol:
+            # files saved with another line-ending convention (all of them, or only some modules): a file is a file, whether
+            # it is the root or an imported module
+            some = rng.random() < 0.5
+            for rel in sorted(files):
+                if not some or (rel != "main.fcp" and rng.random() < 0.6):
+                    files[rel] = files[rel].replace("\n", eol)
+            if not some:
+                single["main.fcp"] = single["main.fcp"].replace("\n", eol)
+        rep.hist("line_endings", {None: "LF", "\r\n": "CR LF", "\r": "CR"}[eol])
         jobs.append({"files": files, "root": "main.fcp"})
         jobs.append({"files": single, "root": "main.fcp"})
         meta.append((inject, victim, len(mods)))
